@@ -20,7 +20,7 @@ RULE = ("accepted multi-module worlds inside the documented fragment (power-of-t
 ASSUMPTIONS = ["64-bit host only in the quick tier (pointer width 8); ABI strings normalised", "rustc 1.95 stable as installed"]
 
 FRAGMENT = gen.Opts(p_packed=0.0, p_backend=0.3, max_modules=3, max_items=5, max_fields=4, p_vftable=0.4, p_base=0.4,
-                    p_impl=0.4, p_enum=0.3, p_extern_type=0.4, p_extern_val=0.3, p_flags=0.5, pub_bases=True, p_priv_item=0.0, static_fns=False)
+                    p_impl=0.4, p_enum=0.3, p_extern_type=0.4, p_extern_val=0.3, p_flags=0.5, pub_bases=True, p_priv_item=0.0, static_fns=False, p_underscore=0.15)
 
 def generate(rng, tier):
     n = 60 if tier == 'quick' else 1500
